@@ -104,6 +104,8 @@ def _multiline_string_nodes(atok, node):
       yield from _multiline_string_nodes(atok, child)
 
 
+_lone_cr_re = re.compile(r'\r(?!\n)')
+
 def _do_make_formula_body(formula, default_value, assoc_value=None):
   # For documentation, see make_formula_body above.
 
@@ -112,6 +114,10 @@ def _do_make_formula_body(formula, default_value, assoc_value=None):
 
   if not formula.strip():
     return textbuilder.Text('return ' + repr(default_value), assoc_value)
+
+  # Python ends a line at a lone carriage return too, but the line-based steps here and in gencode
+  # (dedent, indent, commenting out) only know "\n". The replacement keeps all positions.
+  formula = _lone_cr_re.sub('\n', formula)
 
   formula_builder_text = textbuilder.Text(formula, assoc_value)
 
